@@ -506,7 +506,8 @@ MANIFEST = {
     "claim": "The v1 fee rule (whose clamp gives 0 <= fee <= 25+60 bp), buyUSDG/sellUSDG with decimals adjustment and "
              "round-down steps, GLP mint/redeem, reward accrual, the v2 value-per-share, fee-factor selection, impact cap and "
              "deposit/withdraw amounts, and the four user-operation ledgers (holding guards included) are identical as "
-             "canonical expressions to references transcribed from the contracts.",
+             "canonical expressions to references transcribed from the contracts; the token whitelist is a set keyed by token "
+             "identity (constructor and add_token references).",
     "note": "Trusted: the transcriptions in sa/props/C17.py and the data scaling conventions. Not decided: round-trip "
             "non-profit over pool states; the magnitude of the v2 price impact.",
 }
